@@ -63,4 +63,54 @@ theorem checkRootGo_spec (v : View) : ∀ (fuel : Nat) (q seen : List Nat) (cand
             exact ⟨h7.1.1, h7.1.2⟩
           · exact hc c hcc
 
+/-! ### `Monomer.mark` changes one atom's element and nothing else -/
+
+theorem setZ_at_ne (v : View) (i z j : Nat) (h : j ≠ i) : (v.setZ i z).at j = v.at j := by
+  unfold View.setZ View.at
+  simp only [List.getD, List.getElem?_mapIdx]
+  cases hj : v.atoms[j]? with
+  | none => simp
+  | some a => simp [h]
+
+theorem setZ_at_self (v : View) (i z : Nat) (h : i < v.atoms.length) :
+    ((v.setZ i z).at i).z = z ∧ ((v.setZ i z).at i).ring = (v.at i).ring ∧ ((v.setZ i z).at i).iso = (v.at i).iso := by
+  unfold View.setZ View.at
+  simp [List.getD, List.getElem?_mapIdx, h]
+
+theorem setZ_adj (v : View) (i z : Nat) : (v.setZ i z).adj = v.adj := rfl
+
+theorem setZ_length (v : View) (i z : Nat) : (v.setZ i z).atoms.length = v.atoms.length := by
+  simp [View.setZ]
+
+/-- **`mark`**: on success exactly one atom – an oxygen or a nitrogen – has become the marker of its kind (O-marker for O, N-marker
+    for N); every other atom, every ring / isomorphism flag and every bond is what it was. -/
+theorem mark_spec (v : View) (x : Numbering) (pos oZ nZ : Nat) (v' : View) (h : mark v x pos oZ nZ = .ok v') :
+    ∃ r, (((v.at r).z = 8 ∧ v' = v.setZ r oZ) ∨ ((v.at r).z = 7 ∧ v' = v.setZ r nZ)) ∧
+      (∀ j, j ≠ r → v'.at j = v.at j) ∧ v'.adj = v.adj ∧ v'.atoms.length = v.atoms.length := by
+  unfold mark at h
+  cases hm : markAt v x pos oZ nZ with
+  | raises w => simp [hm] at h
+  | unmodelled => simp [hm] at h
+  | ok p =>
+    obtain ⟨r, z⟩ := p
+    simp only [hm] at h
+    cases h
+    unfold markAt at hm
+    cases hf : findOxygen v x pos with
+    | raises w => simp [hf] at hm
+    | unmodelled => simp [hf] at hm
+    | ok o =>
+      simp only [hf] at hm
+      by_cases h8 : ((v.at (checkRootId v o)).z == 8) = true
+      · simp only [h8, if_true] at hm
+        cases hm
+        exact ⟨checkRootId v o, Or.inl ⟨by simpa using h8, rfl⟩, fun j hj => setZ_at_ne v _ _ j hj, rfl, setZ_length v _ _⟩
+      · simp only [h8, Bool.false_eq_true, if_false] at hm
+        by_cases h7 : ((v.at (checkRootId v o)).z == 7) = true
+        · simp only [h7, if_true] at hm
+          cases hm
+          exact ⟨checkRootId v o, Or.inr ⟨by simpa using h7, rfl⟩, fun j hj => setZ_at_ne v _ _ j hj, rfl, setZ_length v _ _⟩
+        · simp only [h7, Bool.false_eq_true, if_false] at hm
+          cases hm
+
 end Gly.EnumC
